@@ -15,7 +15,7 @@ Histories are arbitrary lists of Model operations — crate structure, membershi
 interleaved, on live and removed crates / tracks and on ids that never existed — so crate ids, track ids
 and membership rows de-synchronise freely; `s` ranges over the eleven 1.x schema versions.
 -/
-import Proofs.CratesV1Frame
+import Proofs.CratesV1Suffix
 
 namespace EngineModel.Properties.C08V1
 open EngineModel EngineModel.Api.CratesV1 EngineModel.Spec EngineModel.Pure.Detect
@@ -40,6 +40,32 @@ theorem C08_refines (s : Schema) (ops : List Op) :
   · intro p hp
     have := h.ctlLive p ((hm.pairs p).mp hp)
     exact ⟨(hm.crates _).mpr this.1, (hm.tracks _).mpr this.2⟩
+
+/-- The same from ANY raw state that passes `WfRaw` (a loaded library): the Spec, started on the membership state the
+rows describe (`absMembers`), follows every history, and the queries agree at the end. -/
+theorem C08_refines_from_wellformed (s : Schema) (db : Db) (hw : WfRaw db = true) (ops : List Op) :
+    ∃ m, membersTrace s db (absMembers db) ops = some m ∧
+      (∀ c, sortIds (crateTracks s (run s db ops) c) = sortIds (Members.tracksOf m c)) ∧
+      (∀ t, sortIds (trackContainingCrates s (run s db ops) t) = sortIds (Members.cratesOf m t)) ∧
+      dbTracks (run s db ops) = sortIds m.tracks ∧ m.pairs.Nodup := by
+  have h0 : Inv db := inv_of_wfRaw hw
+  have h : Inv (run s db ops) := inv_run s ops h0
+  obtain ⟨m, e, hm⟩ := membersTrace_run s ops h0 (memRel_abs h0)
+  exact ⟨m, e, q_tracks s h hm, q_containing s h hm, q_dbTracks h hm, hm.pairsNodup⟩
+
+/-- … and the frame property from any well-formed state. -/
+theorem C08_frame_from_wellformed (s : Schema) (db : Db) (hw : WfRaw db = true) (op : Op) (c t : Id)
+    (hp : touches (absForest db) op (c, t) = false) :
+    (t ∈ crateTracks s (step s db op).1 c ↔ t ∈ crateTracks s db c) ∧
+    (c ∈ trackContainingCrates s (step s db op).1 t ↔ c ∈ trackContainingCrates s db t) := by
+  have h : Inv db := inv_of_wfRaw hw
+  have h' : Inv (step s db op).1 := (step_ok s h op).1
+  rw [mem_crateTracks s h, mem_crateTracks s h', mem_containing s h, mem_containing s h']
+  exact ⟨frame_ctl s h op (c, t) hp, frame_ctl s h op (c, t) hp⟩
+
+example : WfRaw ⟨[⟨5, [97], [97, 59]⟩], [(5, 5)], [], [(5, 7)], [⟨7, true⟩], 0⟩ = true ∧
+    touches (absForest ⟨[⟨5, [97], [97, 59]⟩], [(5, 5)], [], [(5, 7)], [⟨7, true⟩], 0⟩) (.removeTrack 8) (5, 7) = false := by
+  decide +kernel
 
 /-- In every reachable state the contents of a crate have no duplicates, consist of live tracks only, only
 valid crates have contents, and `containing_crates` is the exact converse of `tracks`. -/
